@@ -9,7 +9,16 @@ import (
 func (p *Pool) Send(ctx context.Context, e Event) {
 	e.ctx = ctx
 
+	// Register with the running pool under the state lock: Stop flips the state
+	// under the same lock before it waits for the registered senders, and the
+	// pool's context and channel stay valid for as long as a sender is registered.
+	p.stateM.RLock()
+	if !p.running {
+		p.stateM.RUnlock()
+		return
+	}
 	p.sendWg.Add(1)
+	p.stateM.RUnlock()
 	defer p.sendWg.Done()
 
 	if p.ctx.Err() != nil {
